@@ -124,3 +124,15 @@ Proof. exact good_history_is_good. Qed.
 
 Example C19_example : Witness.fails cfg_fixed Witness.h_good Witness.u_good = [].
 Proof. exact (proj1 good_history_example). Qed.
+
+(** a reachable state with two held, ready, unbatched transactions and a round that hands them out
+    (hypotheses of [C19_eventually_batched_rounds], [C19_pending_flag], [C19_pending_nonce_exact]) *)
+Example C19_state_example :
+  reachable Witness.P1 Witness.accts Witness.u_good s_mid /\ len (unb s_mid (batched s_mid)) = 2 /\
+  item_at s_mid (0, 2) = Some Witness.A2 /\ get_pn s_mid 0 = 3 /\
+  map snd (snd (drain cfg_fixed Witness.P1 1 s_mid)) = [[Witness.A2; Witness.B3]].
+Proof.
+  exact (conj s_mid_reachable (conj (proj1 (proj2 s_mid_example))
+        (conj (proj1 (proj2 (proj2 (proj2 (proj2 (proj2 s_mid_example))))))
+        (conj (proj1 (proj2 (proj2 (proj2 (proj2 s_mid_example))))) (proj2 (proj2 (proj2 (proj2 (proj2 (proj2 s_mid_example)))))))))).
+Qed.
